@@ -91,11 +91,20 @@ def strata(tier):
             yield {"rules": rules, "doc": doc, "perms": _perms(rng, n)}
 
 
+def _big_schema_cases(tier):
+    for j in range(3 if tier == "quick" else 12):
+        rng = G.rng_for("C06-big", j)
+        doc = PC.BIG_DOC
+        rules = _rules_for(rng, doc, 70 + 10 * j, tier)
+        yield {"rules": rules, "doc": doc, "perms": _perms(rng, len(rules), 3)}
+
+
 _strata0 = strata
 
 
 def strata(tier):  # noqa: F811
     yield from _strata0(tier)
+    yield from _big_schema_cases(tier)
     from .. import corpus
     for e in corpus.CORPUS:
         rules = [{k: v for k, v in r.items() if k not in ("doc_spec", "doc", "cast")} for r in corpus.clean_rules(e, with_casts=False)]
